@@ -30,6 +30,11 @@ def run(res, b, tier, seed):
         return
     rows = list(gen_scope.cases())
     cases = [pipeline.Case("s%d" % i, {"main.tsh": r["src"].encode()}, meta=r) for i, r in enumerate(rows)]
+    # the same skeletons as an IMPORTED file: names resolve in an imported file as in a program (round 6: C07-7, a parameter named
+    # like a global of the imported file - globals of imported files are stored under a prefixed name)
+    for i, r in enumerate(rows):
+        cases.append(pipeline.Case("m%d" % i, {"main.tsh": b'import l "lib.tsh"\nprint(1)\n', "lib.tsh": r["src"].encode()},
+                                   meta=dict(r, name=r["name"] + "@imported", src='// lib.tsh, imported by: import l "lib.tsh"; print(1)\n' + r["src"])))
     for name, files, expect in IMPORT_CASES:
         cases.append(pipeline.Case("i" + name, {k: v.encode() for k, v in files.items()}, meta=dict(name=name, expect=expect, src=files["main.tsh"], d=-9, u=-9)))
     pipeline.run_pipe(b, cases, "as")
